@@ -74,6 +74,14 @@ pub const CLASSES: &[&str] = &[
     "all_04_1k",
     "truncated_valid",
     "honest_4mib",
+    // well-formed greetings naming another mechanism / role / version, then a normal peer
+    "greeting_plain",
+    "greeting_curve",
+    "greeting_gssapi",
+    "greeting_mech_random",
+    "greeting_curve_as_server",
+    "greeting_version_3_9",
+    "greeting_version_255",
 ];
 
 fn ready_hdr(data: &[u8]) -> Vec<u8> {
@@ -205,6 +213,22 @@ pub fn hostile(class: &str, peer_ty: &str, seed: u64) -> Vec<u8> {
             m[..m.len() - 5].to_vec()
         }
         "honest_4mib" => rc::message(&[vec![7u8; 4 << 20]]),
+        c if c.starts_with("greeting_") => {
+            let rnd = r.bytes(20);
+            let (ver, mech, as_server): ((u8, u8), &[u8], u8) = match c {
+                "greeting_plain" => ((3, 0), b"PLAIN", 0),
+                "greeting_curve" => ((3, 0), b"CURVE", 0),
+                "greeting_gssapi" => ((3, 1), b"GSSAPI", 0),
+                "greeting_mech_random" => ((3, 0), &rnd, 0),
+                "greeting_curve_as_server" => ((3, 0), b"CURVE", 1),
+                "greeting_version_3_9" => ((3, 9), b"NULL", 0),
+                _ => ((255, 255), b"NULL", 1),
+            };
+            let mut v = rc::greeting_with(ver, mech, 0xFF, 0x7F, as_server);
+            v.extend(rc::ready(peer_ty.as_bytes(), Some(b"m")));
+            v.extend(rc::message(&[vec![1, 2, 3]]));
+            v
+        }
         _ => vec![],
     }
 }
@@ -782,6 +806,49 @@ fn run_units_in_child(ctx: &mut Ctx, units: &[Value], depth: u32) {
     }
 }
 
+/// "Other connections of the same socket keep working", over the real accept path: a peer
+/// sends a hostile or merely incomplete prefix and keeps its connection open; a healthy
+/// peer that connects afterwards is served.
+async fn rig_hostile_stays_open(ty: &str, transport: &str, class: &str, stage: u64) -> Result<u64, (String, String)> {
+    use super::c18::{exchange, ConnRec};
+    use crate::rig::{self, Raw, WAIT};
+    let inc = |e: String| ("inconclusive".to_string(), e);
+    let mut sock = Sock::new(ty, None);
+    let ep = sock.bind(&rig::bind_endpoint(transport)).await.map_err(inc)?;
+    let peer_ty = peer_type_for(ty);
+    let mut bytes = stage_prefix(stage, 2, peer_ty);
+    bytes.extend(hostile(class, peer_ty, 7));
+    bytes.truncate(70_000);
+    let mut bad = Raw::connect(&ep).await.map_err(|e| inc(e.to_string()))?;
+    let _ = bad.write_all(&bytes).await;
+    tokio::time::sleep(std::time::Duration::from_millis(15)).await;
+    let mut good = ConnRec { raw: Raw::connect(&ep).await.map_err(|e| inc(e.to_string()))?, id: b"good".to_vec(), ep: ep.clone() };
+    let served = async {
+        good.raw.handshake(peer_ty, Some(b"good")).await?;
+        if ty == "PUB" {
+            let _ = good.raw.send_msg(&[vec![1u8]]).await;
+        }
+        tokio::time::sleep(std::time::Duration::from_millis(15)).await;
+        exchange(&mut sock, &mut good, 1).await
+    }
+    .await;
+    drop(bad);
+    let _ = tokio::time::timeout(WAIT, sock.close()).await;
+    match served {
+        Ok(()) => Ok(1),
+        Err(e) => {
+            if rig::canary_ok().await {
+                Err((
+                    format!("C03/rig/other-connection-not-served/{transport}"),
+                    format!("{ty} bound on {transport}: a peer sent {} bytes (stage {stage}, class {class}) and kept its connection open; a healthy {peer_ty} peer connecting afterwards: {e}", bytes.len()),
+                ))
+            } else {
+                Err(inc(format!("healthy peer not served while the canary was slow: {e}")))
+            }
+        }
+    }
+}
+
 impl Prop for C03 {
     fn id(&self) -> &'static str {
         "C03"
@@ -851,6 +918,14 @@ impl Prop for C03 {
         for chunk in units.chunks(25) {
             groups.push(json!({"kind": "group", "units": chunk}));
         }
+        // real accept path: the hostile / incomplete connection stays open
+        for ty in ["PULL", "REP", "ROUTER", "PUB"] {
+            for transport in ["tcp4", "ipc"] {
+                for (class, stage) in [("", 0u64), ("", 1), ("", 2), ("size_2p40_cmd", 2), ("size_2p62", 2), ("truncated_valid", 3), ("more_empty_1e4_unterminated", 3), ("ready_value_len_truncated", 2)] {
+                    groups.push(json!({"kind": "rig_open", "ty": ty, "transport": transport, "class": class, "stage": stage}));
+                }
+            }
+        }
         groups
     }
 
@@ -862,6 +937,16 @@ impl Prop for C03 {
                 run_units_in_child(ctx, &units, 0);
             }
             "stream" | "exh" => run_units_in_child(ctx, std::slice::from_ref(case), 0),
+            "rig_open" => {
+                ctx.eval(hash_str(&case.to_string()), true);
+                ctx.sample("rig_open", || case.clone());
+                let (res, _) = crate::rig::run(2, rig_hostile_stays_open(s(case, "ty"), s(case, "transport"), s(case, "class"), u(case, "stage")));
+                match res {
+                    Ok(n) => ctx.add("rig_healthy_peers_served_beside_an_open_hostile_connection", n),
+                    Err((sig, msg)) if sig == "inconclusive" => ctx.inconclusive(format!("C03 rig: {msg}")),
+                    Err((sig, msg)) => ctx.violation_with(&sig, msg, case.clone()),
+                }
+            }
             "inproc" => {
                 // sanitizer legs: same units, in this process (the sanitizer is the crash oracle)
                 for unit in case["units"].as_array().cloned().unwrap_or_default() {
@@ -902,6 +987,7 @@ impl Prop for C03 {
     fn floors(&self, tier: Tier) -> Vec<(&'static str, u64)> {
         vec![
             ("exhaustive_streams", tier.pick(1_000_000, 10_000_000)),
+            ("rig_healthy_peers_served_beside_an_open_hostile_connection", 50),
             ("reached_command_parser", 10_000),
             ("reached_long_size_path", 40),
             ("multipart_over_1000_frames", 4),
